@@ -65,6 +65,7 @@ func (s *SwapStore) Close() error {
 
 // Close the store. NOP opertation, needed to implement Store interface.
 func (s *SwapStore) Swap(new Store) error {
+	verifYield("swap.lock")
 	s.mu.Lock()
 	defer s.mu.Unlock()
 	_, oldWritable := s.s.(WriteStore)
